@@ -591,7 +591,7 @@ func Run(out string, seed int64, tier string) error {
 	ncases, steps := 12, 40
 	schemes := []string{crypto.DefaultSchemeID, crypto.UnchainedSchemeID}
 	if tier == "thorough" {
-		ncases, steps = 150, 70
+		ncases, steps = 60, 60
 		schemes = crypto.ListSchemes()
 	}
 	shapes := [][2]int{{3, 2}, {4, 3}, {5, 3}, {2, 2}, {7, 4}}
